@@ -59,6 +59,12 @@ fn body(cause: Cause) -> vsched::Body {
 /// `twin`: the second concurrent waiter uses the same closing API as the first (two kill_and_wait / stop_and_wait
 /// / drain_and_wait callers at once: the one whose request comes second must wait all the same)
 fn body_x(cause: Cause, twin: bool) -> vsched::Body {
+    body_y(cause, twin, false)
+}
+
+/// `pg_racer`: while A exits, another task leaves and re-joins A's group on A's behalf and installs a monitor for
+/// it (the exit path walks the same tables; whatever the interleaving, the exit completes and the waits return)
+fn body_y(cause: Cause, twin: bool, pg_racer: bool) -> vsched::Body {
     Arc::new(move || {
         Box::pin(async move {
             let log = Log::default();
@@ -141,6 +147,24 @@ fn body_x(cause: Cause, twin: bool) -> vsched::Body {
                     b3.lock().unwrap().push(format!("W2 {what} did not return Ok"));
                 }
             });
+            let racer = if pg_racer {
+                let a6 = a.clone();
+                // (role "racer": its own steps are not decision points, so it is never parked in the middle of a
+                // table operation while an observer reads the tables; it still waits, cooperatively, for whatever
+                // lock the exit path holds)
+                Some(vsched::spawn("racer", async move {
+                    // (a group of its own: the monitor of g1 keeps counting A's single exit-leave)
+                    ractor::pg::join("g4".into(), vec![a6.get_cell()]);
+                    vsched::yield_now().await;
+                    ractor::pg::leave("g4".into(), vec![a6.get_cell()]);
+                    vsched::yield_now().await;
+                    ractor::pg::join("g4".into(), vec![a6.get_cell()]);
+                    vsched::yield_now().await;
+                    ractor::pg::monitor("g3".into(), a6.get_cell());
+                }))
+            } else {
+                None
+            };
             // W2b: a second concurrent waiter (two waiters can be between "status checked" and
             // "registered for the wake-up" at the same time)
             let (a5, l5, b5) = (a.clone(), log.clone(), bad.clone());
@@ -184,6 +208,9 @@ fn body_x(cause: Cause, twin: bool) -> vsched::Body {
             let _ = w1.await;
             let _ = w2.await;
             let _ = w2b.await;
+            if let Some(r) = racer {
+                let _ = r.await;
+            }
             vsched::quiesce_time();
             // the child was taken down with its parent, without further stimulus
             if c.get_status() != ActorStatus::Stopped {
@@ -497,6 +524,9 @@ pub fn plan(tier: &str) -> Plan {
     let bound = if thorough { 3 } else { 2 };
     for cause in [Cause::Stop, Cause::Kill, Cause::Drain, Cause::Err, Cause::Panic] {
         units.push(Unit::explore_split(Job::new(format!("exit/{cause:?}"), cfg.clone(), Some(bound), body(cause)), if thorough { 16 } else { 8 }));
+    }
+    for cause in [Cause::Stop, Cause::Kill] {
+        units.push(Unit::explore_split(Job::new(format!("exit/{cause:?}+pg-racer"), cfg.clone(), Some(bound), body_y(cause, false, true)), if thorough { 16 } else { 8 }));
     }
     for cause in [Cause::Kill, Cause::Stop, Cause::Drain] {
         units.push(Unit::explore_split(Job::new(format!("exit/{cause:?}+twin-closer"), cfg.clone(), Some(bound), body_x(cause, true)), if thorough { 16 } else { 8 }));
